@@ -51,6 +51,11 @@ CHECKS = {
    note='Reply texts are ASCII tags (reply parsing is C17); continuation canonicaliser validated differentially.',
    technique='exhaustive enumeration of reply scripts x segmentations on the real client with a gating scripted peer',
    design='5/C10'),
+ 'C11': dict(level='fault_enumeration', engine='E1-vloop',
+   text='Exhaustive fault enumeration over downstream behaviour, each script one deterministic run of the real relay classes on the virtual loop over in-memory sockets: (A) StaticSmtpRelay/StaticLmtpRelay against a scripted peer -- every single and every double deviation over stages banner, EHLO (+500 -> HELO), MAIL, each RCPT, DATA, end-of-data (per recipient for LMTP), RSET, QUIT x {4xx, 5xx, malformed line, code outside 1xx-5xx, disconnect}, PIPELINING on/off, 1..3 recipients, STARTTLS (required or not, client-side failure), AUTH, immediate TLS, refused connection, two envelopes on a re-used connection; (B) PipeRelay/MaildropRelay/DovecotLdaRelay over a fake Popen: exit status x 7 output shapes x per-recipient mode; (C) HttpRelay: 6 statuses x 5 reply-header shapes + refused/dropped/truncated; (D) MxSmtpRelay over a stub resolver: MX list/A fallback/nothing/errors x attempt number x recipient shapes.  Oracle: delivered only if the peer accepted; always a result or a RelayError (never another exception, a hang, or a failure object returned as success); error class per deciding reply.',
+   note='In-memory sockets, fake TLS, fake Popen, scripted HTTP origin and stub resolver are the environment by definition; where replies of different classes decide about one recipient either class is accepted; contradictory HTTP status/reply-header pairs are undefined.',
+   technique='exhaustive fault-script enumeration (all single and double deviations) on the real relay classes over a virtual event loop with a truth-recording scripted peer',
+   design='5/C11'),
  'C12': dict(level='model_checking', engine='E1-vloop',
    text='Queue world on the virtual loop with a virtual clock (due times compared exactly): 44 (quick) configurations of backoff sequences (incl. 0 and equal due times), 1-2 (3) messages, driver scripts with flush() at every position, 0-2 pre-stored messages loaded at start-up, wait() announcements, pools, all four backends; all schedules with <= d deviations x relay outcomes with <= dd non-default answers, quiescent states merged.  Monitors at every attempt and at every moment virtual time is about to advance: no attempt before due unless flushed, nothing due left on the timetable, every stored known message in flight or scheduled with a wake-up no later than the earliest due time, flush() returns without any timer/environment event and its messages are attempted at once; nothing outstanding at final quiescence.',
    note='time.time() in slimta.queue is rebound to the virtual clock; fake redis client.',
